@@ -9,6 +9,10 @@ import BasicModel.Lemmas.Slice
 import BasicModel.Lemmas.Execute
 import BasicModel.Lemmas.Enter
 import BasicModel.Lemmas.Program
+import BasicModel.Lemmas.GenNeg
+import BasicModel.Lemmas.DirectFrame
+import BasicModel.Lemmas.Inv
+import BasicModel.Lemmas.RunClear
 import BasicModel.Thm.C12
 import BasicModel.Thm.C13
 import BasicModel.Thm.C03
